@@ -566,6 +566,32 @@ func GenConc(seed uint64, prop, target string) (*Scenario, map[string]int64) {
 			sg.sc.Tasks[t] = append(sg.sc.Tasks[t][:at], append([]Call{c}, sg.sc.Tasks[t][at:]...)...)
 		}
 	}
+	if r.P(60) {
+		// Every task applies a patch whose copies stay just under the copy-size limit (an option in
+		// v5, a package variable in the legacy package): whatever is counted must be counted per call.
+		const limit = 64
+		di := sg.addBuf(`{"s":"0123456789abcdefgh","n":null}`)
+		pi := sg.addBuf(`[{"op":"copy","from":"/s","path":"/c1"},{"op":"copy","from":"/s","path":"/c2"},{"op":"copy","from":"/s","path":"/c3"}]`)
+		if target == "legacy" {
+			sg.sc.Cfg.PkgLimit = limit
+		}
+		share := r.Bool()
+		for t := range sg.sc.Tasks {
+			own := nshared + t
+			sg.nextID++
+			calls := []Call{{ID: sg.nextID, Fn: FnDecodePatch, Name: "DecodePatch", A: pi, Slot: own}}
+			for i, n := 0, 2+r.Intn(3); i < n; i++ {
+				sg.nextID++
+				c := Call{ID: sg.nextID, Fn: FnApplyWithOptions, Name: "ApplyWithOptions", A: di, Slot: own, Opts: Opts{Limit: limit, Neg: true, Escape: true}, ShareOpts: share}
+				if target == "legacy" {
+					c.Fn, c.Name, c.Opts, c.ShareOpts = FnApply, "Apply", Opts{}, false
+				}
+				calls = append(calls, c)
+			}
+			sg.sc.Tasks[t] = append(calls, sg.sc.Tasks[t]...)
+		}
+		sg.faults["copies_just_under_the_limit_in_every_task"]++
+	}
 	if r.P(70) {
 		// The same small program in every task, differing only in *which member* it addresses - among
 		// them names that need ~0/~1 escapes in a pointer.  Whatever is remembered per key, per path
@@ -581,6 +607,18 @@ func GenConc(seed uint64, prop, target string) (*Scenario, map[string]int64) {
 			fmt.Fprintf(&doc, "%s:%d", jsonQuoteName(n), i)
 		}
 		doc.WriteByte('}')
+		prefix := ""
+		if r.Bool() {
+			// the members one or two levels down: /o/<name>, /o/p/<name>
+			prefix = r.Pick([]string{"/o", "/o/p"})
+			inner := doc.String()
+			doc.Reset()
+			if prefix == "/o" {
+				doc.WriteString(`{"o":` + inner + `,"z":1}`)
+			} else {
+				doc.WriteString(`{"o":{"p":` + inner + `,"q":[]},"z":1}`)
+			}
+		}
 		di := sg.addBuf(doc.String())
 		esc := strings.NewReplacer("~", "~0", "/", "~1")
 		op := r.Pick([]string{"replace", "test", "remove", "copy"})
@@ -589,13 +627,13 @@ func GenConc(seed uint64, prop, target string) (*Scenario, map[string]int64) {
 			var ptext string
 			switch op {
 			case "test":
-				ptext = fmt.Sprintf(`[{"op":"test","path":"/%s","value":%d}]`, esc.Replace(names[k]), k)
+				ptext = fmt.Sprintf(`[{"op":"test","path":"%s/%s","value":%d}]`, prefix, esc.Replace(names[k]), k)
 			case "remove":
-				ptext = fmt.Sprintf(`[{"op":"remove","path":"/%s"}]`, esc.Replace(names[k]))
+				ptext = fmt.Sprintf(`[{"op":"remove","path":"%s/%s"}]`, prefix, esc.Replace(names[k]))
 			case "copy":
-				ptext = fmt.Sprintf(`[{"op":"copy","from":"/%s","path":"/%s"}]`, esc.Replace(names[k]), esc.Replace(names[(k+1)%len(names)]))
+				ptext = fmt.Sprintf(`[{"op":"copy","from":"%s/%s","path":"%s/%s"}]`, prefix, esc.Replace(names[k]), prefix, esc.Replace(names[(k+1)%len(names)]))
 			default:
-				ptext = fmt.Sprintf(`[{"op":"replace","path":"/%s","value":"t%d"}]`, esc.Replace(names[k]), t)
+				ptext = fmt.Sprintf(`[{"op":"replace","path":"%s/%s","value":"t%d"}]`, prefix, esc.Replace(names[k]), t)
 			}
 			pi := sg.addBuf(ptext)
 			own := nshared + t
